@@ -333,6 +333,11 @@ def c04_jobs(tier):
                     pq=1, cond=1, tscale="0.1", t0="-0.15",
                     ops="hold0,hold1,hold2,tadd1,tadd2,racq0,rrel0,pacq1,pacq2,prel1,bput1,bget1,bget3,oqput0,oqget,cwait0,csig,setx1,int1,exit",
                     script0="racq0,hold1,rrel0", script1="tadd1,racq0,hold1", script2="tadd2,bget1,hold1"))
+    # ... and with steps of three to seven units across zero (the clock after a step is the time the event was scheduled
+    # for, not the old clock plus the difference)
+    jobs.append(des("core-p2-long-steps", "notif", b, dl, procs=2, prios="0,0", budget=3, tscale="0.1", t0="-0.15",
+                    ops="hold0,hold1,hold3,hold5,hold7,tadd3,tadd5u,yield,resume0,int0,waitp1,exit,evsched3,waite0",
+                    script0="hold3,hold1", script1="hold5,hold1"))
     if tier != "quick":
         jobs.append(des("core-p3", "notif", 3, dl, procs=3, prios="0,0,1", budget=3,
                         ops=C04_OPS + ",waitp2,int2,stop2,resume2", script0="hold1,hold1", script1="hold2,hold1",
@@ -780,6 +785,10 @@ def c14_jobs(tier):
         des("buffer-fractional-clock", "history", b, dl, procs=3, prios="0,1,1", budget=4, buf=3, tscale="0.1", t0="-0.15",
             ops="recon,recoff,bput1,bput2,bget1,bget2,hold0,hold1,hold2,int0,exit",
             script0="recon,bput2,hold1,bput2", script1="bget1,hold1,bget2,recoff", script2="hold1,bget2"),
+        # a cancel from a full priority queue wakes a blocked putter, which is stopped / interrupted / timed out before it puts
+        des("priorityqueue-cancel-wakes-putter", "history", b, dl, procs=3, prios="0,1,1", budget=4, pq=2,
+            ops="recon,recoff,pqput0,pqput1,pqget,pqcancel,hold0,hold1,hold2,tadd1,int0,int0h,stop0,exit",
+            script0="recon,pqput0,pqput0,hold1", script1="pqput1,hold1,pqcancel,stop0", script2="hold2,recoff"),
         # a very fine clock (time unit 2^-54: every interval far below DBL_EPSILON) and a very coarse one (2^60)
         des("resource-attosecond-clock", "history", 2, dl, procs=3, prios="0,1,2", budget=4, res=1, tscale="5.551115123125783e-17",
             ops="recon,recoff,racq0,rrel0,rpre0,hold0,hold1,hold2,int0,exit",
